@@ -46,3 +46,35 @@ fn c06_is_object_contract() {
     assert!(l.is_object() == matches!(l, TypeLayer::Object(_)));
     kani::cover!(true);
 }
+
+/// ObjectType::get_register_type (30-variant or-patterns, assumed by the Verus unit `bindings`): D3D register classes —
+/// t for read-only views and acceleration structures, u for writable views, b for constant buffers, s for samplers;
+/// it does not panic on any root object type.  COMPLETE over every variant (payloads do not matter).
+#[kani::proof]
+fn c06_register_type_table() {
+    let id = TypeId(kani::any());
+    let (o, expect): (ObjectType, RegisterType) = match kani::any::<u8>() % 22 {
+        0 => (ObjectType::Buffer(id), RegisterType::T),
+        1 => (ObjectType::RWBuffer(id), RegisterType::U),
+        2 => (ObjectType::ByteAddressBuffer, RegisterType::T),
+        3 => (ObjectType::RWByteAddressBuffer, RegisterType::U),
+        4 => (ObjectType::BufferAddress, RegisterType::T),
+        5 => (ObjectType::RWBufferAddress, RegisterType::U),
+        6 => (ObjectType::StructuredBuffer(id), RegisterType::T),
+        7 => (ObjectType::RWStructuredBuffer(id), RegisterType::U),
+        8 => (ObjectType::Texture2D(id), RegisterType::T),
+        9 => (ObjectType::Texture2DArray(id), RegisterType::T),
+        10 => (ObjectType::RWTexture2D(id), RegisterType::U),
+        11 => (ObjectType::RWTexture2DArray(id), RegisterType::U),
+        12 => (ObjectType::TextureCube(id), RegisterType::T),
+        13 => (ObjectType::TextureCubeArray(id), RegisterType::T),
+        14 => (ObjectType::Texture3D(id), RegisterType::T),
+        15 => (ObjectType::RWTexture3D(id), RegisterType::U),
+        16 => (ObjectType::ConstantBuffer(id), RegisterType::B),
+        17 => (ObjectType::SamplerState, RegisterType::S),
+        18 => (ObjectType::SamplerComparisonState, RegisterType::S),
+        _ => (ObjectType::RaytracingAccelerationStructure, RegisterType::T),
+    };
+    assert!(o.get_register_type() == expect);
+    kani::cover!(true);
+}
